@@ -30,7 +30,7 @@ CORPUS = PARAMS.get('corpus', 'core')       # core | real
 STYLE = PARAMS.get('style', 'lower')
 FIXTURE = os.path.join(os.environ.get('VERIF_ROOT', '/verif'), 'fixtures', 'interp_model.xtuml')
 LOADER = None
-HOMES = ['function', 'instance_op', 'class_op', 'bridge', 'derived']
+HOMES = ['function', 'instance_op', 'class_op', 'bridge', 'derived', 'struct_fn']
 
 
 def loader():
@@ -60,10 +60,28 @@ def build():
         xtuml.relate(syc2, csp2, 1504)
         xtuml.relate(syc2, lfsc, 1502)
         xtuml.relate(lsc, lfsc, 1503)
+    # a member named `length` on the structured type, and a function with a parameter of that type
+    sdt = m.select_one('S_SDT')
+    last = one(sdt).S_MBR[44](lambda x: not one(x).S_MBR[46, 'precedes']())
+    mbr = m.new('S_MBR', Name='length')
+    xtuml.relate(mbr, sdt, 44)
+    xtuml.relate(mbr, m.select_one('S_DT', lambda x: x.Name == 'real'), 45)
+    xtuml.relate(last, mbr, 46, 'precedes')
+    proto = m.select_one('S_SYNC', lambda x: x.Name == 'Function')
+    fn = m.new('S_SYNC', Name='Struct_Function', Suc_Pars=1)
+    pe2 = m.new('PE_PE', Visibility=1, type=1)
+    xtuml.relate(fn, pe2, 8001)
+    xtuml.relate(pe2, one(proto).PE_PE[8001].EP_PKG[8000](), 8000)
+    xtuml.relate(fn, one(proto).S_DT[25](), 25)
+    par = m.new('S_SPARM', Name='seg')
+    xtuml.relate(par, fn, 24)
+    xtuml.relate(par, one(sdt).S_DT[17](), 26)
     return m
 
 
 def carrier(m, home):
+    if home == 'struct_fn':
+        return m.select_one('S_SYNC', lambda s: s.Name == 'Struct_Function')
     if home == 'function':
         return m.select_one('S_SYNC', lambda s: s.Name == 'Function')
     if home == 'instance_op':
@@ -98,6 +116,8 @@ with notrace():
                 if 'p' in flags and home in ('bridge', 'derived'):
                     continue
                 if 'b' in flags and home != 'bridge':
+                    continue
+                if ('t' in flags) != (home == 'struct_fn'):
                     continue
                 if 's' not in flags and home == 'derived' and name not in ('assign_scalars', 'if_elif_else', 'select_related'):
                     continue
@@ -390,6 +410,12 @@ def check_population(m, before_ids, text, name):
             o_attr = one(sub).O_ATTR[806]()
             if o_attr is not None and one(o_attr).S_DT[114]() is not dt and ooaofooa.get_attribute_type(o_attr) is not dt:
                 return ('attribute read not typed as the attribute', o_attr.Name, dt.Name)
+        if kind == 'V_MVL':
+            s_mbr = one(sub).S_MBR[836]()
+            if s_mbr is None or one(s_mbr).S_DT[45]() is not dt:
+                return ('member read not typed as the member', getattr(s_mbr, 'Name', None), dt.Name)
+        if kind == 'V_ALV' and dt.Name != 'integer':
+            return ('array length not typed integer', dt.Name)
         if kind == 'V_IRF' and not dt.Name.startswith('inst_ref<'):
             return ('instance reference type', dt.Name)
         if kind == 'V_ISR' and not dt.Name.startswith('inst_ref_set<'):
